@@ -34,7 +34,7 @@ SYSTEMS = {
 
 
 def base(**kw):
-    c = dict(NT=5, SysName="hb31", IsMin=True, MRA=True, Vals={0, 1, 2}, Faults=True, MaxRun=2, MaxFaults=1, DE=False, PR=True)
+    c = dict(NT=5, SysName="hb31", IsMin=True, MRA=True, Vals={0, 1, 2}, Faults=True, MaxRun=2, MaxFaults=1, DE=False, PR=True, WithNaN=False)
     c.update(kw)
     return c
 
